@@ -5,7 +5,7 @@ import math
 
 import numpy as np
 
-from .. import gen, reach
+from .. import gen, reach, repo
 from ..oracle import embed, refq
 
 ID = "C19"
@@ -167,7 +167,13 @@ def _herm(spec, ctx, R):
         ctx.distinct(A, tol, sd, nontrivial=n >= 2)
         np.random.seed(sd)
         try:
-            v, est = U.power_iteration(A, max_iterations=cap, tol=tol, return_eigenvalue=True)
+            if k == 2 or (k == 0 and spec["idx"] % 4 == 0):
+                # call form: verbose=True prints only; what is returned is judged by the same clauses
+                with repo.quiet():
+                    v, est = U.power_iteration(A, max_iterations=cap, tol=tol, return_eigenvalue=True, verbose=True)
+                ctx.hit("callform:verbose_true")
+            else:
+                v, est = U.power_iteration(A, max_iterations=cap, tol=tol, return_eigenvalue=True)
         except Exception as ex:
             ctx.check("unexpected_exception", False, site="power_iteration", tags=tags, detail={**det, "exception": repr(ex)})
             continue
@@ -238,7 +244,14 @@ def _bounded(spec, ctx, R):
         ctx.distinct(A, cap, sd, nontrivial=n >= 2)
         np.random.seed(sd)
         try:
-            v, est = U.power_iteration(A, max_iterations=cap, tol=1e-10, return_eigenvalue=True)
+            if (spec["idx"] + k) % 3 == 0:
+                # verbose=True on every class (nilpotent, zero, rank-one, non-Hermitian ...): it announces breakdowns / stagnation / non-Hermitian
+                # input and must still return the same kind of result
+                with repo.quiet():
+                    v, est = U.power_iteration(A, max_iterations=cap, tol=1e-10, return_eigenvalue=True, verbose=True)
+                ctx.hit("callform:verbose_true")
+            else:
+                v, est = U.power_iteration(A, max_iterations=cap, tol=1e-10, return_eigenvalue=True)
         except Exception as ex:
             ctx.check("unexpected_exception", False, site="power_iteration", tags=[c], detail={**det, "exception": repr(ex)})
             continue
